@@ -142,8 +142,11 @@ def make_cases_factory(state):
             names = sorted({e.name for e in els})
             for _ in range(3):
                 sel = c05.mixed(rng) if leak_stream and rng.random() < 0.8 else c05.sel_text(rng, names)
-                if rng.random() < 0.15 and not leak_stream:
-                    sel = rng.choice([':scope', ':scope > *', '& > ' + sel, ':scope ' + sel, sel + ':not(:scope)', ':root', ':--c1'])
+                if rng.random() < 0.22 and not leak_stream:
+                    sel = rng.choice([':scope', ':scope > *', '& > ' + sel, ':scope ' + sel, sel + ':not(:scope)', ':root', ':--c1',
+                                      # :scope evaluated on elements other than the target (bs4 compares tags structurally: a twin is not the scope)
+                                      ':scope ~ *', ':scope + *', '& ~ * *', ':has(~ :scope)', ':has(+ &)', '*:not(:scope) ~ *', ':is(:scope, & *)',
+                                      ':scope ~ ' + sel, ':not(:has(~ :scope))'])
                 ns = NS if leak_stream else rng.choice([None, NS])
                 try:
                     sv.compile(sel, ns, custom=CUSTOM)
